@@ -42,6 +42,7 @@ type Plan struct {
 	Sys        bool           `json:"systematic,omitempty"`    // a case of the systematic corpus (every short sequence)
 	MixedKeys  bool           `json:"mixed_keys,omitempty"`    // keys of different dynamic types whose printed forms collide
 	CallbackAt int            `json:"callback_at,omitempty"`   // single client: the callback is registered just before this operation index (0: before the first)
+	TypedVals  bool           `json:"typed_values,omitempty"`  // stored values are strings, Stringers, errors and Formatters with the same text (C10n formatted some of them outside the lock)
 	Bystander  int            `json:"bystander_ops,omitempty"` // > 0: a second, independent cache instance is used at the same time (that many operations)
 	Clients    [][]Op         `json:"clients"`
 	Cfg        simsync.Config `json:"cfg"`
@@ -80,6 +81,106 @@ func genOps(r *detsim.Rand, client, n, nkeys int, m mix, loadBeforeStore bool) [
 		}
 	}
 	return ops
+}
+
+// genPhased draws a single-client history made of phases, each a long run of ONE kind of operation: fill with new
+// keys, load many (ascending, descending, random, one hot key), re-store, delete, overflow with new keys. A uniform mix
+// practically never holds 129 Loads in a row; a warm cache in production sees thousands (seeded C09n: hits recorded in a
+// 128-slot buffer that silently drops when full).
+func genPhased(r *detsim.Rand, cap int) (ops []Op, nkeys int) {
+	vn, next := 0, 0 // next: the smallest key never stored
+	store := func(k int) {
+		vn++
+		ops = append(ops, Op{K: OpStore, Key: k, Val: fmt.Sprintf("v0.%d", vn)})
+	}
+	fresh := func(n int) {
+		for i := 0; i < n; i++ {
+			store(next)
+			next++
+		}
+	}
+	loads := func(n int) {
+		if next == 0 {
+			return
+		}
+		lo := 0
+		if next > cap+3 {
+			lo = next - cap - 3 // mostly live keys, a few evicted ones
+		}
+		span := next - lo
+		switch r.Intn(4) {
+		case 0:
+			for i := 0; i < n; i++ {
+				ops = append(ops, Op{K: OpLoad, Key: lo + i%span})
+			}
+		case 1:
+			for i := 0; i < n; i++ {
+				ops = append(ops, Op{K: OpLoad, Key: next - 1 - i%span})
+			}
+		case 2:
+			for i := 0; i < n; i++ {
+				ops = append(ops, Op{K: OpLoad, Key: lo + r.Intn(span)})
+			}
+		case 3:
+			hot := lo + r.Intn(span)
+			for i := 0; i < n; i++ {
+				ops = append(ops, Op{K: OpLoad, Key: hot})
+			}
+		}
+	}
+	runLen := func() int {
+		switch r.Weighted([]int{3, 3, 2}) {
+		case 0:
+			return 1 + r.Intn(8)
+		case 1:
+			return 20 + r.Intn(120)
+		}
+		return 129 + r.Intn(300)
+	}
+	if r.Chance(1, 2) {
+		// the template: fill, a long run of hits, overflow, look at everything
+		fresh(cap + r.Intn(4))
+		n := cap/2 + r.Intn(2*cap+8)
+		if r.Chance(1, 2) && n < 140 {
+			n = 129 + r.Intn(200)
+		}
+		loads(n)
+		fresh(1 + r.Intn(cap+1))
+		for k := 0; k < next; k++ {
+			ops = append(ops, Op{K: OpLoad, Key: k})
+		}
+		return ops, next + 1
+	}
+	fresh(1 + r.Intn(cap+3))
+	for ph := 2 + r.Intn(6); ph > 0 && len(ops) < 2500; ph-- {
+		switch r.Weighted([]int{4, 3, 2, 1, 1, 1}) {
+		case 0:
+			loads(runLen())
+		case 1:
+			fresh(1 + r.Intn(cap+2))
+		case 2: // re-store live keys
+			for n := runLen(); n > 0 && next > 0; n-- {
+				store(next - 1 - r.Intn(min(next, cap+1)))
+			}
+		case 3:
+			for n := 1 + r.Intn(cap+1); n > 0 && next > 0; n-- {
+				ops = append(ops, Op{K: OpDelete, Key: next - 1 - r.Intn(min(next, cap+2))})
+			}
+		case 4:
+			ops = append(ops, Op{K: OpLen})
+		case 5:
+			ops = append(ops, Op{K: OpDump})
+		}
+	}
+	fresh(1 + r.Intn(cap+1))
+	return ops, next + 1
+}
+
+func min(a, b int) int {
+	if a < b {
+		return a
+	}
+	return b
 }
 
 func genMix(r *detsim.Rand, withDump bool) (mix, bool) {
@@ -152,6 +253,16 @@ func GenC09(r *detsim.Rand, tier string) *Plan {
 			}
 		}
 	}
+	if r.Chance(1, 12) {
+		// phases instead of a mix (replaces the history drawn above)
+		p.Cap = []int{1, 2, 3, 8, 16, 64, 127, 128, 129, 130, 200, 257, 300}[r.Intn(13)]
+		ops, nk := genPhased(r, p.Cap)
+		p.Clients = [][]Op{ops}
+		p.NKeys = nk
+		p.CallbackAt = 0
+		p.Callback = true
+	}
+	p.TypedVals = r.Chance(1, 4)
 	return p
 }
 
@@ -183,6 +294,12 @@ func genCfg(r *detsim.Rand, nClients, estSteps int, pyields bool) simsync.Config
 
 // GenC10 draws a concurrent run: "small" (linearizability) or "large" (invariants).
 func GenC10(r *detsim.Rand, tier string, forceShape string) *Plan {
+	p := genC10(r, tier, forceShape)
+	p.TypedVals = r.Chance(1, 3)
+	return p
+}
+
+func genC10(r *detsim.Rand, tier string, forceShape string) *Plan {
 	p := &Plan{Prop: "C10", Callback: !r.Chance(1, 8), MixedKeys: r.Chance(1, 5)}
 	shape := forceShape
 	if shape == "" {
@@ -289,14 +406,12 @@ func (s sysSpace) size() uint64 {
 
 // fillCaps: capacities around powers of two up to well beyond the library's default; each gets one "fill" history
 // (distinct keys stored until the cache has overflowed, Len after every store, every key loaded at the end).
-var fillCaps = []int{255, 256, 257, 511, 512, 513, 1023, 1025, 4096, 4097, 32768, 65535, 65536, 65537, 70000, 131073}
+// Negative entries are "churn" histories on capacity -c: 3c+300 distinct keys, i.e. more than 2c removals on a cache of more
+// than 1024 entries - the internal index is rebuilt at least once while the cache is that large (seeded C09o did the rebuild
+// in time slices and kept a stale half-built copy); they run under a clock that leaps.
+var fillCaps = []int{255, 256, 257, 511, 512, 513, 1023, 1025, 4096, 4097, 32768, 65535, 65536, 65537, 70000, 131073, -1030, -1100, -1030}
 
-func fillCases(tier string) int {
-	if tier == "thorough" {
-		return len(fillCaps)
-	}
-	return len(fillCaps) // cheap enough for every run: about a million operations in total
-}
+func fillCases(tier string) int { return len(fillCaps) } // cheap enough for every run
 
 // SysC09Total is the number of systematic single-client histories of a tier.
 func SysC09Total(tier string) uint64 {
@@ -309,27 +424,48 @@ func SysC09Total(tier string) uint64 {
 
 // fillPlan: capacity c, c+c/8+3 distinct keys (c+3 for the big ones: the cache finds the key of an evicted entry by a
 // scan of its whole index, which the simulator additionally puts into a canonical order - many evictions on a big cache cost minutes).
-func fillPlan(c int) *Plan {
+func fillPlan(i int) *Plan {
+	c := fillCaps[i]
 	n := c + c/8 + 3
 	if c > 1100 {
 		n = c + 3
 	}
+	clock := simsync.ClockMode(i % 4)
+	leap := false
+	if c < 0 {
+		c = -c
+		n = 3*c + 300
+		clock = simsync.ClockJumpy
+		leap = i%2 == 0 // every reading leaps / three in ten do
+	}
 	p := &Plan{Prop: "C09", Shape: "fill", Cap: c, NKeys: n, Callback: true, Sys: true}
-	p.Cfg = simsync.Config{Policy: simsync.PolicyUniform, StallTask: -1, Pool: simsync.PoolLIFO, StepCap: 50000000}
+	p.Cfg = simsync.Config{Policy: simsync.PolicyUniform, StallTask: -1, Pool: simsync.PoolLIFO, StepCap: 50000000, Clock: clock}
+	if leap {
+		p.Cfg.ClockLeapPermille = 1000
+	}
 	return p
+}
+
+// sysSpecial: the expensive special cases are spread over the 16 equal shares the driver hands to the workers: special
+// case s sits in share s%16, at offset s/16 from the start of the share.
+func sysSpecial(n, stride, fc uint64) (s uint64, ok bool) {
+	s = n/stride + 16*(n%stride)
+	return s, n%stride <= (fc-1)/16 && n/stride < 16 && s < fc
 }
 
 // SysC09 returns the n-th systematic history (n < SysC09Total).
 func SysC09(tier string, n uint64) *Plan {
-	// the expensive fill cases sit at the start of each of 16 equal shares (the driver gives every worker one share)
 	total, fc := SysC09Total(tier), uint64(fillCases(tier))
 	stride := (total + 15) / 16
-	if n%stride == 0 && n/stride < fc {
-		return fillPlan(fillCaps[n/stride])
+	if s, ok := sysSpecial(n, stride, fc); ok {
+		return fillPlan(int(s))
 	}
-	before := (n + stride - 1) / stride // fill positions below n
-	if before > fc {
-		before = fc
+	// special positions below n
+	before := uint64(0)
+	for s := uint64(0); s < fc; s++ {
+		if pos := (s%16)*stride + s/16; pos < n {
+			before++
+		}
 	}
 	n -= before
 	for _, s := range sysSpaces(tier) {
@@ -348,7 +484,7 @@ func SysC09(tier string, n uint64) *Plan {
 			l++
 		}
 		p := &Plan{Prop: "C09", Shape: "seq", Cap: cap, NKeys: s.NKeys, Callback: true, Sys: true}
-		p.Cfg = simsync.Config{Policy: simsync.PolicyUniform, StallTask: -1, Pool: simsync.PoolLIFO}
+		p.Cfg = simsync.Config{Policy: simsync.PolicyUniform, StallTask: -1, Pool: simsync.PoolLIFO, Clock: simsync.ClockMode(n * 0x9E3779B97F4A7C15 >> 40 & 3)}
 		ops := make([]Op, l)
 		vn := 0
 		for i := l - 1; i >= 0; i-- {
